@@ -479,6 +479,8 @@ func c06Gen(rng *rand.Rand, tier string) []core.Spec {
 		stream, bounds := encodeAll(frames)
 		sp := &ReaderSpec{Prop: 6, Server: server, RBuf: core.Pick(rng, rbufChoices), Chunks: chunkStream(rng, stream, bounds), Fault: 0, Cmp: true, Drains: true, Note: note}
 		sp.StaleWDL = rng.Intn(3) == 0
+		// application-installed handlers: the 1009 close is the library's own, whatever the close handler does
+		sp.Custom = rng.Intn(4) == 0
 		if i%10 == 5 && rng.Intn(2) == 0 {
 			L = 0
 		}
